@@ -556,7 +556,7 @@ def main(tier, replay=None):
     mout = None
     midx = [i for i, c in enumerate(cases) if c["model"]]
     if drv:
-        rc, mo, merr = vf.run_lines(drv, "".join(cases[i]["model"] + "\n" for i in midx), timeout=1500)
+        rc, mo, merr = run_chunks(drv, [cases[i]["model"] for i in midx], 8 if big else 4)
         if rc != 0 or len(mo) != len(midx):
             chk.broke("model driver failed (rc=%s, %d/%d lines)" % (rc, len(mo), len(midx)), merr)
         else:
@@ -597,6 +597,23 @@ def main(tier, replay=None):
     chk.cov["rings"] = sorted(RINGS)
     chk.cov["maxCardinality_from_impl"] = maxc
     return chk.finish()
+
+
+def run_chunks(binary, lines, n):
+    """run a line-by-line driver on `lines`, split round-robin over n processes; results in input order"""
+    from concurrent.futures import ThreadPoolExecutor
+    n = max(1, min(n, len(lines) // 200 or 1))
+    parts = [lines[k::n] for k in range(n)]
+    with ThreadPoolExecutor(max_workers=n) as ex:
+        res = list(ex.map(lambda part: vf.run_lines(binary, "".join(l + "\n" for l in part), timeout=1700), parts))
+    out = [None] * len(lines)
+    err = ""
+    for k, (rc, o, e) in enumerate(res):
+        if rc != 0 or len(o) != len(parts[k]):
+            return rc or 1, [], e
+        out[k::n] = o
+        err += e
+    return 0, out, err
 
 
 def build_harness_private(src):
